@@ -79,6 +79,8 @@ def s_while(c, body): return {"k": "while", "c": c, "body": body}
 def s_do(body, c): return {"k": "do", "c": c, "body": body}
 def s_for(init, c, step, body): return {"k": "for", "init": init or s_nop(), "c": c or lit("int", 1), "step": step or s_nop(), "body": body}
 def s_nop(): return {"k": "nop"}
+def s_goto(n): return {"k": "goto", "n": n}
+def s_label(n): return {"k": "label", "n": n}
 def s_break(): return {"k": "break"}
 def s_continue(): return {"k": "continue"}
 def s_case(v): return {"k": "case", "v": w8(v)}
@@ -229,6 +231,10 @@ def rstmt(s, structs, ind=1):
         return t + "for (%s %s; %s)\n" % (init, r(s["c"]), step) + rstmt(s["body"], structs, ind + 1)
     if k == "nop":
         return t + ";\n"
+    if k == "goto":
+        return t + "goto %s;\n" % s["n"]
+    if k == "label":
+        return t + "%s:;\n" % s["n"]
     if k == "break":
         return t + "break;\n"
     if k == "continue":
